@@ -159,7 +159,7 @@ func report(prop string, cfg *PropConfig, w *World, results []*FnResult, missing
 				lines = append(lines, o.Name)
 			} else if strings.HasPrefix(o.Fn, "sweep:") {
 				noise = append(noise, o.Name)
-			} else if o.Result == "undecided" && isSafetyKind(o.Kind) {
+			} else if o.Result == "undecided" && (isSafetyKind(o.Kind) || o.Kind == "pre-of") {
 				// an undecided zero-annotation safety obligation of a function under contract (it lacks a precondition):
 				// non-binding; recorded so that the quick tier does not spend its time on it again
 				noise = append(noise, o.Name)
